@@ -50,6 +50,18 @@ def run(chk):
         cp = classgen.ClassProgram(rng, depth=rng.choice([1, 2, 3, 3, 4, 5]), churn=rng.random() < 0.2)
         ps = perms(rng, cp.n_decls(), 3)
         cases.append(([cp.source()] + [cp.source(p) for p in ps], ps, [], False))
+    # hierarchies through generic classes: Base <- G<T> <- D, Box<T extends Item>, statics initialised from other classes
+    for _ in range(150 if chk.thorough else 30):
+        a, b, c3 = rng.randrange(1, 9), rng.randrange(1, 9), rng.randrange(1, 9)
+        decls = ["class GBase { public int gb = %d; public constructor() -> GBase = default; public virtual function id() -> int { return gb; } }" % a,
+                 "class GMid<T> extends GBase { public int gm = %d; public T held; public constructor() -> GMid<T> { super(); return this; } public override function id() -> int { return gm * 10 + gb; } }" % b,
+                 "class GLeaf extends GMid<int> { public int gl = %d; public constructor() -> GLeaf { super(); return this; } }" % c3,
+                 "class GItem { public int w = %d; public constructor() -> GItem = default; }" % (a + b),
+                 "class GBox<T extends GItem> { public T it; public static int made = 0; public constructor(T it) -> GBox<T> { this.it = it; made = made + 1; return this; } public function w() -> int { return it.w + made; } }",
+                 "function main() -> void { GLeaf x = new GLeaf(); echo(x.gb); echo(x.gm); echo(x.gl); echo(x.id()); GBase y = new GLeaf(); echo(y.id()); "
+                 "GBox<GItem> bx = new GBox<GItem>(new GItem()); echo(bx.w()); GMid<string> ms = new GMid<string>(); echo(ms.gm + ms.gb); }"]
+        ps = perms(rng, len(decls), 4)
+        cases.append((["\n".join(decls)] + ["\n".join(decls[i] for i in p) for p in ps], ps, [], False))
     for _fn, o in load_corpus("C10"):
         cases.append(([o["source"]] + o["variants"], ["corpus"] * len(o["variants"]), o.get("draws", []), False))
     progs, owner = [], []
